@@ -2,7 +2,7 @@
 from .. import core, extract
 from ..core import Suite
 
-LEAN_TARGETS = ['Uds.Props.C13', 'Uds.Tie.CallGraph']
+LEAN_TARGETS = ['Uds.Props.C13', 'Uds.Props.C15Stray', 'Uds.Tie.CallGraph']
 ASSUMPTIONS = [
     'the security algorithm is user code: the model takes it as a function of (seed, level); the harness uses a recording Python function and also the four '
     'documented signatures (seed / seed,level / seed,params / seed,level,params) and a callable object',
